@@ -1,6 +1,10 @@
 package main
 
 func init() {
+	registerProp(&PropCfg{ID: "C04", Families: []string{"POST", "FRAME", "SAFE"},
+		Composition: "per-element step contracts of the list/reduce middlewares + the call-shape contracts of the lonely/thoughtful/nothing/findProp middlewares give the documented per-element rule; whole-sequence behaviour follows by induction on the iterator's length (unchecked). Not covered yet: the literal-call family, the dispatch functions newChainMiddleware/merge*, digest of the chain argument (native), which sequence a receiver's iterator yields"})
+	registerProp(&PropCfg{ID: "C07", Families: []string{"POST", "FRAME", "SAFE"},
+		Composition: "each evaluating function returns the first error it obtains from an evaluating call, unchanged, and makes no further evaluating call (contracts over the ghost call log); appendStackTrace returns the error it is given. Covered: statements, infix, prefix, range, if, jump, assignment, property-call chain middlewares. Not covered yet: array/object/map literals, arguments, embedded strings, literal-call chains"})
 	registerProp(&PropCfg{ID: "C03", Families: []string{"POST", "FRAME", "SAFE"},
 		Composition: "body sees definition scope: the call's scope is a fresh copy of the closure's own scope whose enclosing scope is the definition scope (by reference, so later assignments there are visible), and it is neither the caller's scope nor the closure's stored scope; assignments write only the innermost store (FRAME.scope on every function held to the EC frame). Unchecked: induction over nesting; symhash injectivity; evalCallable (closure creation) is out of reach (address of a by-value parameter's field escapes) and the positional/keyword binding loops of assignArgsToEnv are only frame-checked; iterator stores are identified by an assumed invariant"})
 	registerProp(&PropCfg{ID: "C12", Families: []string{"POST", "FRAME", "SAFE"},
